@@ -64,6 +64,16 @@ def empty_graph(cls, directed=None):
     return g
 
 
+SetA = set_sort(Atom)
+IA = z3.Datatype("IndAssertion")
+IA.declare("mk", ("event1", SetA), ("event2", SetA), ("event3", SetA))
+IA = IA.create()
+
+
+def ia_fields(z):
+    return IA.event1(z), IA.event2(z), IA.event3(z)
+
+
 class EdgeView(Coll):
     def __init__(self, g_E, directed, mem):
         super().__init__("iter", PairAA, mem, nodup=True)
@@ -89,10 +99,10 @@ class PathTheory:
             self.ex.axioms.append(z3.ForAll([a, b, c], z3.Implies(z3.And(P(a, b), E[b, c]), P(a, c))))
             self.ex.axioms.append(z3.ForAll([a, b, c], z3.Implies(z3.And(E[a, b], P(b, c)), P(a, c))))
             self.ex.axioms.append(z3.ForAll([a, b, c], z3.Implies(z3.And(P(a, b), P(b, c)), P(a, c))))
-            self.rels[k] = P
+            self.rels[k] = (E, P)  # pin E: ast ids are recycled after garbage collection
             self.ex.assumed.add("Path_E axiomatised as a reflexive relation closed under E-steps; leastness only through "
                                 "explicitly listed induction instances (each a theorem of the least fix-point)")
-        return self.rels[k]
+        return self.rels[k][1]
 
     def induct_forward(self, E, S):
         """S closed under E-successors  =>  S closed under Path."""
@@ -174,6 +184,14 @@ class Lib:
     def obj_equal(self, ex, a, b, st):
         return None
 
+    def scalar_attr(self, ex, v, attr, st):
+        if v.z.sort() == IA and attr in ("event1", "event2", "event3"):
+            return Coll("frozenset", Atom, getattr(IA, attr)(v.z))
+        if v.z.sort() == IA and attr == "all_vars":
+            e1, e2, e3 = ia_fields(v.z)
+            return Coll("frozenset", Atom, union(union(e1, e2, Atom), e3, Atom))
+        return None
+
     def equal_hook(self, ex, a, b, st):
         if isinstance(a, EdgeView) and isinstance(b, EdgeView):
             x, y = fresh("a", Atom), fresh("b", Atom)
@@ -204,6 +222,13 @@ class Lib:
         if name in GRAPH_CLASSES and not args and not kwargs:
             ex.used_lib.add(f"{name}() -> empty graph")
             return empty_graph(name)
+        if name == "IndependenceAssertion" and len(args) == 3:
+            es = [ex.as_coll(a, st, Atom) for a in args]
+            es = [e.mem if e.mem is not None else empty_set(Atom) for e in es]
+            # assumed contract of the constructor: raises ValueError unless event1 and event2 are non-empty
+            ex.oblige(st, z3.And(nonempty(es[0], Atom), nonempty(es[1], Atom)), "call.IndependenceAssertion.events-nonempty")
+            ex.assumed.add("IndependenceAssertion(e1,e2,e3) stores frozenset(e_i) (constructor contract assumed; requires e1, e2 non-empty)")
+            return Scalar(IA.mk(*es), "IndependenceAssertion")
         return NotImplemented
 
     def super_(self, ex, args, st):
@@ -216,7 +241,15 @@ class Lib:
         raise Unsupported("super() form")
 
     def hash_(self, ex, v, st):
-        raise Unsupported("hash")
+        """hash: an uninterpreted function per sort (equal values hash equal by congruence; sets are
+        extensional arrays, so equal frozensets hash equal)."""
+        z = z3_of(v) if not (isinstance(v, Coll) and v.kind in ("frozenset",)) else v.mem
+        key = "hash_" + str(z.sort()).replace(" ", "")
+        f = self.card_fns.get(key)
+        if f is None:
+            f = self.card_fns[key] = z3.Function(key, z.sort(), I)
+        ex.used_lib.add("hash(): uninterpreted function per sort (congruence only)")
+        return f(z)
 
     def card(self, ex, c, st):
         key = str(c.esort)
@@ -233,6 +266,12 @@ class Lib:
         ex.used_lib.add("len(): uninterpreted cardinality with axioms n>=0, n=0 <=> empty, n=1 <=> singleton")
         return n
 
+    def ensure_order(self, ex):
+        if not getattr(ex, "_order_added", False):
+            ex.axioms += order_axioms()
+            ex._order_added = True
+            ex.assumed.add("sorted(): names are totally ordered by an uninterpreted total order (mixed-type names that do not compare are outside the model)")
+
     def sorted_(self, ex, v, st):
         items = v.items if isinstance(v, (TupleV, Coll)) else None
         if items is None and isinstance(v, Scalar):
@@ -240,10 +279,7 @@ class Lib:
             items = tv.items if isinstance(tv, TupleV) else None
         if items is None or len(items) != 2:
             raise Unsupported("sorted() of anything but a pair")
-        if not self.order_added:
-            ex.axioms += order_axioms()
-            self.order_added = True
-            ex.assumed.add("sorted(): names are totally ordered by an uninterpreted total order (mixed-type names that do not compare are outside the model)")
+        self.ensure_order(ex)
         a, b = z3_of(items[0]), z3_of(items[1])
         lo = z3.If(_le(a, b), a, b)
         hi = z3.If(_le(a, b), b, a)
